@@ -535,6 +535,10 @@ func (w *ksWorld) build(cfg fiber.Config) *fiber.App {
 		if c.Query("input") != "" {
 			r = r.WithInput()
 		}
+		if c.Query("back") != "" {
+			// back to where the client came from; without a Referer (and no fallback) that is an error
+			return r.Back()
+		}
 		return r.To("/show")
 	})
 	app.Get("/show", func(c fiber.Ctx) error { final(c, nil); return c.SendString("shown") })
@@ -749,6 +753,13 @@ func ksGenerate(s *simrt.Sim, nconn int, flashValid string) []*ksReq {
 			}
 			if s.Chance(300) {
 				path += "&st=303"
+			}
+			if s.Chance(200) {
+				r.kind = "redirect-back"
+				path += "&back=1"
+				if s.Chance(400) {
+					hdr = append(hdr, [2]string{"Referer", "http://example.com/from/" + strconv.Itoa(i)})
+				}
 			}
 		case 8:
 			r.kind = "show"
